@@ -16,21 +16,22 @@ import (
 
 // Job is what a worker process is asked to do.
 type Job struct {
-	ID       int     `json:"id"`
-	Harness  string  `json:"harness"` // C15 | C10conc | C05mon
-	C15      *C15Cfg `json:"c15,omitempty"`
-	C10      *C10Cfg `json:"c10,omitempty"`
-	C05      *C05Cfg `json:"c05,omitempty"`
-	C18      *C18Cfg `json:"c18,omitempty"`
-	C03      *C03Cfg `json:"c03,omitempty"`
-	C14      *C14Cfg `json:"c14,omitempty"`
-	CodecSig string  `json:"codec_sig,omitempty"` // harness "codec": the violation signature to re-check
-	Mode     string  `json:"mode"`                // explore | split | replay
-	B        Bounds  `json:"bounds"`
-	Prefix   []int   `json:"prefix,omitempty"`
-	Choices  []int   `json:"choices,omitempty"` // replay: the exact answers at every choice point
-	Trace    bool    `json:"trace,omitempty"`
-	Deadline int64   `json:"deadline_unix_ms,omitempty"` // stop exploring (answer complete:false) after this instant
+	ID       int        `json:"id"`
+	Harness  string     `json:"harness"` // C15 | C10conc | C05mon
+	C15      *C15Cfg    `json:"c15,omitempty"`
+	C10      *C10Cfg    `json:"c10,omitempty"`
+	C05      *C05Cfg    `json:"c05,omitempty"`
+	C18      *C18Cfg    `json:"c18,omitempty"`
+	C03      *C03Cfg    `json:"c03,omitempty"`
+	C14      *C14Cfg    `json:"c14,omitempty"`
+	C14Ctl   *C14CtlCfg `json:"c14ctl,omitempty"`
+	CodecSig string     `json:"codec_sig,omitempty"` // harness "codec": the violation signature to re-check
+	Mode     string     `json:"mode"`                // explore | split | replay
+	B        Bounds     `json:"bounds"`
+	Prefix   []int      `json:"prefix,omitempty"`
+	Choices  []int      `json:"choices,omitempty"` // replay: the exact answers at every choice point
+	Trace    bool       `json:"trace,omitempty"`
+	Deadline int64      `json:"deadline_unix_ms,omitempty"` // stop exploring (answer complete:false) after this instant
 }
 
 type FoundViol struct {
@@ -105,6 +106,8 @@ func runOnce(job *Job, ch vs.Chooser, trace bool) (*vs.Result, *Outcome) {
 		out, res = c03Run(job.C03, cc, trace)
 	case "C14conc":
 		out, res = c14Run(job.C14, cc, trace)
+	case "C14ctl":
+		out, res = c14CtlRun(job.C14Ctl, cc, trace)
 	default:
 		return &vs.Result{Fatal: "unknown harness " + job.Harness}, nil
 	}
@@ -160,6 +163,8 @@ func (job *Job) cfgString() string {
 		return job.C03.String()
 	case job.C14 != nil:
 		return job.C14.String()
+	case job.C14Ctl != nil:
+		return job.C14Ctl.String()
 	case job.Harness == "codec":
 		return "codec product space (Wire.Write -> Wire.Read), part producing " + job.CodecSig
 	}
